@@ -44,10 +44,28 @@ theorem pinned_never_renamed (pg : Bool) (moduleNs : Ns) (rg : List String) (bin
     r.final = r.b.name ∧ r.renamed = false :=
   pinned_kept _ pg _ _ r h hp
 
+/-- T03.5 (PEP 709): a name bound in a list/set/dict comprehension is reserved in every namespace out to the
+    function that contains the comprehension, so together with `no_new_clash` it never receives the final
+    name of a binding referenced in (or through) that function. -/
+theorem comprehension_names_reserved_in_enclosing (b : Binding) (ns : Ns) (h : ns ∈ b.enclosing) : ns ∈ b.scope := by
+  unfold Binding.scope
+  rw [List.mem_eraseDups]
+  exact List.mem_cons_of_mem _ (List.mem_append_left _ h)
+
+-- Non-vacuity for T03.5: `outer` (home 0) is read through function 1 by a lambda (2); the comprehension variable
+-- (home 3, enclosed by function 1) would be free to take "A" without the enclosing rule; with it, it gets "B".
+example :
+    let outer : Binding := ⟨0, .name, some "outer_value", 0, true, none, 0, false, [], [⟨.name, []⟩, ⟨.name, [2, 1, 0]⟩, ⟨.name, [2, 1, 0]⟩]⟩
+    let comp : Binding := ⟨1, .name, some "loop_item", 0, true, none, 3, false, [1], [⟨.name, []⟩, ⟨.name, []⟩]⟩
+    let compOld : Binding := ⟨1, .name, some "loop_item", 0, true, none, 3, false, [], [⟨.name, []⟩, ⟨.name, []⟩]⟩
+    (loop Generated.nameSeq false (initial [outer, comp] 9 []) [outer, comp]).map (·.final) = [some "A", some "B"] ∧
+    (loop Generated.nameSeq false (initial [outer, compOld] 9 []) [outer, compOld]).map (·.final) = [some "A", some "A"] := by
+  decide +kernel
+
 -- Non-vacuity: two bindings sharing namespace 0, one pinned to "A": the other one is renamed to "B".
 example :
-    let pinned : Binding := ⟨0, .name, some "A", 0, false, some "A", 0, true, [⟨.name, []⟩]⟩
-    let free : Binding := ⟨1, .name, some "long_name", 0, true, none, 1, false, [⟨.name, [0]⟩, ⟨.name, []⟩, ⟨.name, []⟩]⟩
+    let pinned : Binding := ⟨0, .name, some "A", 0, false, some "A", 0, true, [], [⟨.name, []⟩]⟩
+    let free : Binding := ⟨1, .name, some "long_name", 0, true, none, 1, false, [], [⟨.name, [0]⟩, ⟨.name, []⟩, ⟨.name, []⟩]⟩
     (loop Generated.nameSeq false (initial [pinned, free] 0 []) [free, pinned]).map (·.final) = [some "B", some "A"]
     ∧ WFB pinned = true ∧ WFB free = true := by decide +kernel
 
